@@ -181,7 +181,13 @@ class Eval:
                 continue
             if isinstance(p, dict):
                 if "f" in p:
-                    base = ("fld", base, p["f"])
+                    bb = base
+                    while bb[0] == "val":
+                        bb = bb[2]
+                    if bb[0] == "agg" and bb[1] == "tuple" and str(p["f"]).isdigit() and int(p["f"]) < len(bb[2]):
+                        base = bb[2][int(p["f"])]
+                    else:
+                        base = ("fld", base, p["f"])
                 elif "dc" in p:
                     base = ("dc", base, p["dc"])
                 elif "ix" in p:
@@ -431,10 +437,10 @@ class Lin:
         """constant length if s is an array-typed value"""
         if s[0] == "bytes":
             import re
-            m = re.search(r"\[[^;\]]+; (\d+)\]", s[2])
+            m = re.search(r"\[.*; (\d+)\]$", s[2].strip())
             if m:
                 return int(m.group(1))
-            return len(s[1]) // 2 if s[1] else None
+            return None
         if s[0] == "agg" and s[1] == "array":
             return len(s[2])
         if s[0] == "repeat" and isinstance(s[1], int):
@@ -448,7 +454,7 @@ class Lin:
             ty = s[1]
         if ty:
             import re
-            m = re.fullmatch(r"(?:&(?:'\w+ )?(?:mut )?)?\[[^;\]]+; (\d+)\]", ty.strip())
+            m = re.fullmatch(r"(?:&(?:'\w+ )?(?:mut )?)?\[.*; (\d+)\]", ty.strip())
             if m:
                 return int(m.group(1))
         return None
@@ -865,7 +871,7 @@ class Prover:
         import re
         ga = t.get("ga") or []
         for g in ga[:1]:
-            m = re.fullmatch(r"\[[^;\]]+; (\d+)\]", g.strip())
+            m = re.fullmatch(r"\[.*; (\d+)\]", g.strip())
             if m:
                 return int(m.group(1))
         return None
